@@ -70,6 +70,18 @@ fn alphabet() -> Vec<Tpl> {
         tpl("[a, b, c]", None, &[], &["a", "b", "c"]),
         tpl("do {\n inputs = 5\n return inputs\n}", None, &[], &[]),
         tpl("c = if false then (a = 1) else 2", Some("c"), &["c", "a"], &["a", "c"]),
+        // assignments in every position of a do-block / lambda body (return position, nested in the
+        // return expression, statement-less blocks, callbacks)
+        tpl("c = do {\n return a = 9\n}", Some("c"), &["c"], &["a", "c"]),
+        tpl("do {\n return b = 9\n}", None, &[], &["b"]),
+        tpl("c = do {\n return 1 + (a = 2)\n}", Some("c"), &["c"], &["a", "c"]),
+        tpl("do {\n t = 1\n return (b = t) + 1\n}", None, &[], &["b"]),
+        tpl("(x => a = x)(5)", None, &[], &["a"]),
+        tpl("[1] via (x => (a = x))", None, &[], &["a"]),
+        tpl("reduce([1, 2], (acc, x) => (b = acc + x), 0)", None, &[], &["b"]),
+        tpl("c = (() => do {\n return a = 4\n})()", Some("c"), &["c"], &["a", "c"]),
+        tpl("f = () => (b = 1)", Some("f"), &["f"], &["b", "f"]),
+        tpl("f()", None, &[], &["f"]),
     ]
 }
 
@@ -303,7 +315,14 @@ fn random_template(r: &mut Rng, names: &[&str]) -> Tpl {
         17 => tpl(&format!("output {} = {}", x, k), Some(x), &[x], &[x]),
         18 => tpl(&format!("{} = nope_{}", x, k), Some(x), &[x], &[x]),
         19 => tpl(&format!("{} = ({} = {}) + nope", x, y, k), Some(x), &[x, y], &[x, y]),
-        20 => tpl(&format!("{} = sort(reverse([{}, {}, 3]))", x, k, k + 1), Some(x), &[x], &[x]),
+        20 => match r.below(6) {
+            0 => tpl(&format!("{} = do {{\n return {} = {}\n}}", x, y, k), Some(x), &[x], &[x, y]),
+            1 => tpl(&format!("do {{\n return {} = {}\n}}", x, k), None, &[], &[x]),
+            2 => tpl(&format!("do {{\n return 1 + ({} = {})\n}}", x, k), None, &[], &[x]),
+            3 => tpl(&format!("(q => {} = q)({})", x, k), None, &[], &[x]),
+            4 => tpl(&format!("[{}] where (q => ({} = q) > 0)", k, x), None, &[], &[x]),
+            _ => tpl(&format!("{} = sort(reverse([{}, {}, 3]))", x, k, k + 1), Some(x), &[x], &[x]),
+        },
         _ => tpl(&format!("[{}, {}, {}]", x, y, z), None, &[], &[x, y, z]),
     }
 }
